@@ -140,11 +140,13 @@ func (m *MemberList) broadcastRaftAddress() {
 // It uses the broadcast queue to forward a key eviction command within the cluster.
 func (m *MemberList) ForwardDeleteKey(ctx context.Context, key string) {
 	connId, _ := ctx.Value(internal.ContextConnID("ConnectionID")).(string)
+	database, _ := ctx.Value("Database").(int)
 	m.broadcastQueue.QueueBroadcast(&BroadcastMessage{
 		Action:      "DeleteKey",
 		Content:     []byte(key),
 		ContentHash: md5.Sum([]byte(key)),
 		ConnId:      connId,
+		Database:    database,
 		NodeMeta: NodeMeta{
 			ServerID: raft.ServerID(m.options.Config.ServerID),
 			RaftAddr: raft.ServerAddress(fmt.Sprintf("%s:%d",
@@ -157,11 +159,13 @@ func (m *MemberList) ForwardDeleteKey(ctx context.Context, key string) {
 // It uses the broadcast queue to forward a data mutation within the cluster.
 func (m *MemberList) ForwardDataMutation(ctx context.Context, cmd []byte) {
 	connId, _ := ctx.Value(internal.ContextConnID("ConnectionID")).(string)
+	database, _ := ctx.Value("Database").(int)
 	m.broadcastQueue.QueueBroadcast(&BroadcastMessage{
 		Action:      "MutateData",
 		Content:     cmd,
 		ContentHash: md5.Sum(cmd),
 		ConnId:      connId,
+		Database:    database,
 		NodeMeta: NodeMeta{
 			ServerID: raft.ServerID(m.options.Config.ServerID),
 			RaftAddr: raft.ServerAddress(fmt.Sprintf("%s:%d",
